@@ -184,3 +184,16 @@ SPECS['C10'] = {
     'thorough': [J('c10', 'fast', srcs=TLSSRC, deadline=1500)],
     'budget': {'quick': 170, 'thorough': 1700},
 }
+
+SPECS['C11'] = {
+    'level': 'fault_enumeration',
+    'technique': 'exhaustive enumeration of payload lengths x content types x sequence numbers through the real record protection (CBC+HMAC and GCM), the complete single-fault neighbourhood (bit flips, header fields, truncations, extensions, other sequence numbers) of short records, crafted records, and every duplicate / drop / swap / reflection of application records on live connections over vnet',
+    'claim': 'For every payload length of the tier and the content-type / sequence-number sets, unprotect(protect(x)) returns the original type and payload with a reported length not exceeding the ciphertext; every single-bit change of body or authenticated header field, every truncation, extension and other sequence number of a short record, all-zero TLS 1.3 inner plaintexts and crafted CBC paddings are refused; on a live connection the delivered bytes are always a prefix of the sent stream (duplicated, swapped, reflected records are rejected) and nothing behind a deleted record is delivered.',
+    'trusted': 'records are produced by the library\'s own protect functions (their wire format is exercised against the peer in C08); exact-size heap blocks + ASan for out-of-buffer writes; vnet adversary',
+    'rule': 'cbc/gcm: payload lengths (quick: 0..1100, k*1024+-1, 16300..16384; thorough: every 0..16384) x content types x 8 sequence numbers (0,1,255,256,2^32-1,2^32,2^56-1,2^64-1) x TLS 1.3 paddings {0,1,15,16,255}; tamper neighbourhood for lengths {0,1,15,16,17,100}: all body bits, type/version bits, 16 length-field bits presented as 5+length bytes, all truncations, extensions, 8 other sequence numbers; crafted paddings and all-zero inner plaintexts; live: 3 protocols x 2 directions x 3 records x {duplicate, drop, swap, reflect}.',
+    'bound': {'quick': 'thinned length set', 'thorough': 'all 16385 lengths'},
+    'assumptions': ['one key per mode', '2-bit alterations out of scope'],
+    'quick': [J('c11', 'fast', srcs=TLSSRC), J('c11', 'asan', srcs=TLSSRC, deadline=100)],
+    'thorough': [J('c11', 'fast', srcs=TLSSRC, deadline=1500), J('c11', 'asan', srcs=TLSSRC, deadline=1500)],
+    'budget': {'quick': 170, 'thorough': 1700},
+}
